@@ -2907,57 +2907,47 @@ def actualG (R a : Ty) (extra : Props) : Props := ([0], R) :: (expandTy [0, 0] a
 
 def NoHit (extra : Props) : Prop := ∀ e ∈ extra, ([0, 0] : Path).isPrefixOf e.1 = false
 
-theorem normMids_length (R a : Ty) (extra : Props) {k : Path} {u : Ty} (he : (k, u) ∈ expandTy [0, 0] a) :
-    (normMids (actualG R a extra) false k).length = k.length - 2 := by
-  unfold normMids
-  apply filterMap_range_length
-  intro j hj
-  obtain ⟨hp, hc⟩ := expandTy_closed a [0, 0] (k, u) he
-  have hmem := hc (j + 2) (by simp) (by simp only; omega)
-  have hmem' : k.take (j + 2) ∈ (actualG R a extra).map (·.1) := by
-    simp only [actualG, List.map_cons, List.map_append, List.mem_cons, List.mem_append]; exact Or.inr (Or.inl hmem)
-  obtain ⟨w, hw⟩ := propAt_of_mem hmem'
-  simp only [hw, Bool.false_and, Bool.false_eq_true, if_false]
-  have : (k.take (j + 2)) ≠ [] := by
-    intro h0
-    have := congrArg List.length h0
-    simp only [List.length_take, List.length_nil] at this
-    omega
-  cases hl : (k.take (j + 2)).getLast? with
-  | none => exact absurd (List.getLast?_eq_none_iff.mp hl) this
-  | some _ => rfl
+theorem normFrom_false (props : Props) (pre : Path) (rest : List Nat) : normFrom props false pre rest = rest := by
+  induction rest generalizing pre with
+  | nil => rfl
+  | cons i rest ih =>
+    simp only [normFrom, Bool.false_and, Bool.not_false, ih]
+    cases propAt props pre <;> simp
+
+/-- on the actual side (Union levels kept) the normalised elements are the path without its root -/
+theorem normIdx_false (props : Props) (k : Path) : normIdx props false k = k.tail := by
+  cases k with
+  | nil => rfl
+  | cons r rest => simp [normIdx, normFrom_false]
 
 theorem leaf_hits (R a : Ty) (extra : Props) {k : Path} {u : Ty} (he : (k, u) ∈ expandTy [0, 0] a) :
-    hitOf [0, 0] 1 (k, normMids (actualG R a extra) false k ++ k.getLast?.toList) = some [0, 0] := by
+    hitOf [0, 0] [0] (k, normIdx (actualG R a extra) false k) = some [0, 0] := by
   obtain ⟨hp, _⟩ := expandTy_closed a [0, 0] (k, u) he
-  have hlen : 2 ≤ k.length := by simpa using hp.length_le
-  have hk : k ≠ [] := by intro h0; rw [h0] at hlen; simp at hlen
-  have hlast : (k.getLast?.toList).length = 1 := by
-    cases hl : k.getLast? with
-    | none => exact absurd (List.getLast?_eq_none_iff.mp hl) hk
-    | some _ => rfl
-  have hpre : ([0, 0] : Path).isPrefixOf k = true := List.isPrefixOf_iff_prefix.mpr hp
-  have htake : k.take 2 = [0, 0] := by simpa using prefix_take hp
-  simp only [hitOf, hpre, if_true, List.length_append, normMids_length R a extra he, hlast]
-  by_cases h2 : k.length = 2
-  · have : k = [0, 0] := by rw [← htake, List.take_of_length_le (by omega)]
-    simp [h2, this]
-  · have h3 : k.length - 2 + 1 ≠ 1 := by omega
-    have h4 : k.length - 2 + 1 > 1 := by omega
-    simp only [h3, if_false, h4, if_true]
-    have : k.length - (k.length - 2 + 1 - 1) = 2 := by omega
-    rw [this, htake]
+  obtain ⟨t, rfl⟩ := hp
+  have hpre : ([0, 0] : Path).isPrefixOf ([0, 0] ++ t) = true := List.isPrefixOf_iff_prefix.mpr ⟨t, rfl⟩
+  rw [normIdx_false]
+  simp only [hitOf, hpre, if_true, List.cons_append, List.nil_append, List.tail_cons, List.length_cons, List.length_nil, Nat.zero_add,
+    List.take_succ_cons, List.take_zero, ne_eq, not_true_eq_false, if_false]
+  cases t with
+  | nil => simp
+  | cons x t =>
+    have h1 : ¬ (t.length + 1 + 1 < 1) := by omega
+    have h2 : ¬ (t.length + 1 + 1 = 1) := by omega
+    simp only [List.length_cons, h1, if_false, h2]
+    have : t.length + 1 + 1 + 1 - (t.length + 1 + 1 - 1) = 2 := by omega
+    rw [this]
+    rfl
 
 theorem hit_of_entry (R a : Ty) (extra : Props) {k : Path} {u : Ty} (he : (k, u) ∈ expandTy [0, 0] a) :
-    (normEntry (actualG R a extra) false (k, u)).bind (hitOf [0, 0] 1) = none ∨
-    (normEntry (actualG R a extra) false (k, u)).bind (hitOf [0, 0] 1) = some [0, 0] := by
+    (normEntry (actualG R a extra) false (k, u)).bind (hitOf [0, 0] [0]) = none ∨
+    (normEntry (actualG R a extra) false (k, u)).bind (hitOf [0, 0] [0]) = some [0, 0] := by
   unfold normEntry
   split
   · right; simp only [Option.bind]; exact leaf_hits R a extra he
   · left; rfl
 
 theorem findHit (R a : Ty) (extra : Props) (hex : NoHit extra) :
-    (normalizeProps (actualG R a extra) false).findSome? (hitOf [0, 0] 1) = some [0, 0] := by
+    (normalizeProps (actualG R a extra) false).findSome? (hitOf [0, 0] [0]) = some [0, 0] := by
   unfold normalizeProps
   rw [findSome?_filterMap]
   apply findSome?_const
@@ -2975,7 +2965,7 @@ theorem findHit (R a : Ty) (extra : Props) (hex : NoHit extra) :
     refine ⟨e, by simp only [actualG, List.mem_cons, List.mem_append]; exact Or.inr (Or.inl he), ?_⟩
     obtain ⟨hp, _⟩ := expandTy_closed a [0, 0] e he
     have hlen : 2 ≤ e.1.length := by simpa using hp.length_le
-    have : normEntry (actualG R a extra) false e = some (e.1, normMids (actualG R a extra) false e.1 ++ e.1.getLast?.toList) := by
+    have : normEntry (actualG R a extra) false e = some (e.1, normIdx (actualG R a extra) false e.1) := by
       unfold normEntry
       have : (decide (e.1.length > 1) && decide (e.2.attrs = .nil)) = true := by simp [hl]; omega
       simp only [this, if_true]
@@ -3026,12 +3016,13 @@ def schemaOf (m : Method) : Props := expandTy [0] m.self ++ expandTys [1] 0 m.pa
 /-- one target template bound through `klass.0`: the update list of `make_updates` -/
 theorem updatesFor_klass0 (tp : Path) (tn : Str) (S : Props) (R a : Ty) (extra : Props) (hex : NoHit extra)
     (rest : List (Path × Str)) (h1 : templatesOf S = ([0, 0], tn) :: rest) (hrest : ∀ e ∈ rest, e.2 ≠ tn)
-    (h2 : ((normalizeProps S true).find? (fun e => e.1 = [0, 0])).map (·.2) = some [0]) :
-    updatesFor tp tn (templatesOf S) (normalizeProps S true) (normalizeProps (actualG R a extra) false) (actualG R a extra) []
+    (h2 : ((normalizeProps S true).find? (fun e => e.1 = [0, 0])).map (·.2) = some [0])
+    (h3 : classAt S [0] s_Union = false) :
+    updatesFor tp tn (templatesOf S) S (normalizeProps S true) (normalizeProps (actualG R a extra) false) (actualG R a extra) []
       = [(tp, [0, 0])] := by
   have hfind := findActual_klass0 (normalizeProps S true) R a extra hex h2
   have hskip : ∀ (l : List (Path × Str)) acc, (∀ e ∈ l, e.2 ≠ tn) →
-      updatesFor tp tn l (normalizeProps S true) (normalizeProps (actualG R a extra) false) (actualG R a extra) acc = acc := by
+      updatesFor tp tn l S (normalizeProps S true) (normalizeProps (actualG R a extra) false) (actualG R a extra) acc = acc := by
     intro l
     induction l with
     | nil => intro acc _; rfl
@@ -3041,8 +3032,12 @@ theorem updatesFor_klass0 (tp : Path) (tn : Str) (S : Props) (R a : Ty) (extra :
       have hne : sn ≠ tn := h (sp, sn) (by simp)
       simp only [updatesFor, ne_eq, hne, not_false_eq_true, if_true]
       exact ih acc (fun e he => h e (by simp [he]))
+  have hno : noneForOptional S (actualG R a extra) [0, 0] [0, 0] = false := by
+    have hd : ([0, 0] : Path).dropLast = [0] := rfl
+    unfold noneForOptional
+    rw [hd, h3, Bool.false_and]
   rw [h1]
-  simp only [updatesFor, ne_eq, not_true_eq_false, if_false, hfind, putUpdate, propAt_actualG R a extra]
+  simp only [updatesFor, ne_eq, not_true_eq_false, if_false, hfind, hno, Bool.false_eq_true, putUpdate, propAt_actualG R a extra]
   split
   · exact hskip rest _ hrest
   · rfl
@@ -3055,9 +3050,9 @@ theorem returnsOf_pop (t : Ty) : returnsOf popRow (.list t) .nil = t := by
   rw [hact]
   simp only [htargets, List.isEmpty_cons, Bool.false_eq_true, if_false, makeUpdates, List.foldl_cons, List.foldl_nil]
   show applyUpdates popRow.ret (actualG (.list t) t [])
-    (updatesFor [2] s_TValue (templatesOf (schemaOf popRow)) (normalizeProps (schemaOf popRow) true)
+    (updatesFor [2] s_TValue (templatesOf (schemaOf popRow)) (schemaOf popRow) (normalizeProps (schemaOf popRow) true)
       (normalizeProps (actualG (.list t) t []) false) (actualG (.list t) t []) []) = t
-  rw [updatesFor_klass0 [2] s_TValue (schemaOf popRow) (.list t) t [] noHit_nil [] (by decide +kernel) (by simp) (by decide +kernel)]
+  rw [updatesFor_klass0 [2] s_TValue (schemaOf popRow) (.list t) t [] noHit_nil [] (by decide +kernel) (by simp) (by decide +kernel) (by decide +kernel)]
   simp [applyUpdates, propAt_actualG]
 
 /-- `list<t>.__iter__()` is `Iterator<t>` for every `t` -/
@@ -3069,9 +3064,9 @@ theorem returnsOf_listIter (t : Ty) : returnsOf listIterRow (.list t) .nil = tIt
   rw [hact]
   simp only [htargets, List.isEmpty_cons, Bool.false_eq_true, if_false, makeUpdates, List.foldl_cons, List.foldl_nil]
   show applyUpdates listIterRow.ret (actualG (.list t) t [])
-    (updatesFor [2, 0] s_TValue (templatesOf (schemaOf listIterRow)) (normalizeProps (schemaOf listIterRow) true)
+    (updatesFor [2, 0] s_TValue (templatesOf (schemaOf listIterRow)) (schemaOf listIterRow) (normalizeProps (schemaOf listIterRow) true)
       (normalizeProps (actualG (.list t) t []) false) (actualG (.list t) t []) []) = tIter t
-  rw [updatesFor_klass0 [2, 0] s_TValue (schemaOf listIterRow) (.list t) t [] noHit_nil [] (by decide +kernel) (by simp) (by decide +kernel)]
+  rw [updatesFor_klass0 [2, 0] s_TValue (schemaOf listIterRow) (.list t) t [] noHit_nil [] (by decide +kernel) (by simp) (by decide +kernel) (by decide +kernel)]
   simp [applyUpdates, propAt_actualG, listIterRow, tIter, setAt, setAtL]
 
 theorem prefix01_noHit (v : Ty) : NoHit (expandTy [0, 1] v) := by
@@ -3096,10 +3091,10 @@ theorem returnsOf_dictIter (k v : Ty) : returnsOf dictIterRow (.dict k v) .nil =
   rw [hact]
   simp only [htargets, List.isEmpty_cons, Bool.false_eq_true, if_false, makeUpdates, List.foldl_cons, List.foldl_nil]
   show applyUpdates dictIterRow.ret (actualG (.dict k v) k (expandTy [0, 1] v))
-    (updatesFor [2, 0] s_TKey (templatesOf (schemaOf dictIterRow)) (normalizeProps (schemaOf dictIterRow) true)
+    (updatesFor [2, 0] s_TKey (templatesOf (schemaOf dictIterRow)) (schemaOf dictIterRow) (normalizeProps (schemaOf dictIterRow) true)
       (normalizeProps (actualG (.dict k v) k (expandTy [0, 1] v)) false) (actualG (.dict k v) k (expandTy [0, 1] v)) []) = tIter k
   rw [updatesFor_klass0 [2, 0] s_TKey (schemaOf dictIterRow) (.dict k v) k _ (prefix01_noHit v) [([0, 1], s_TValue)]
-    (by decide +kernel) (by decide) (by decide +kernel)]
+    (by decide +kernel) (by decide) (by decide +kernel) (by decide +kernel)]
   simp [applyUpdates, propAt_actualG, dictIterRow, tIter, setAt, setAtL]
 
 /-- `Iterator<t>.__next__()` is `t` for every `t` -/
@@ -3111,9 +3106,9 @@ theorem returnsOf_iterNext (t : Ty) : returnsOf iterNextRow (tIter t) .nil = t :
   rw [hact]
   simp only [htargets, List.isEmpty_cons, Bool.false_eq_true, if_false, makeUpdates, List.foldl_cons, List.foldl_nil]
   show applyUpdates iterNextRow.ret (actualG (tIter t) t [])
-    (updatesFor [2] s_T (templatesOf (schemaOf iterNextRow)) (normalizeProps (schemaOf iterNextRow) true)
+    (updatesFor [2] s_T (templatesOf (schemaOf iterNextRow)) (schemaOf iterNextRow) (normalizeProps (schemaOf iterNextRow) true)
       (normalizeProps (actualG (tIter t) t []) false) (actualG (tIter t) t []) []) = t
-  rw [updatesFor_klass0 [2] s_T (schemaOf iterNextRow) (tIter t) t [] noHit_nil [] (by decide +kernel) (by simp) (by decide +kernel)]
+  rw [updatesFor_klass0 [2] s_T (schemaOf iterNextRow) (tIter t) t [] noHit_nil [] (by decide +kernel) (by simp) (by decide +kernel) (by decide +kernel)]
   simp [applyUpdates, propAt_actualG]
 
 /-! ## declarations, operator chains -/
